@@ -158,3 +158,37 @@ Definition ex_conflict : module :=
 Example C04_ex_conflict : Process [ex_conflict] false false [n_m] = RErr /\
   stage_err1 [ex_conflict] false [n_m] = true.
 Proof. vm_compute. split; reflexivity. Qed.
+
+(* ---- the reader (Model/Reader.v): the step text -> abstract module sources is inside the model.
+   read_module reads a parsed module / submodule statement (Model/Parse.v) into Schema.module, for exactly the subset
+   Schema.dnode / deviate / module express; everything else is rejected.  render_module is the renderer at the
+   statement-tree level.  The check (check/props/c04.py, reader leg) compares on every run what the Python renderer
+   and encoder of schema_gen.py produce against this reader (read_text, resolve_text). *)
+From GY Require Model.Parse.
+From GY Require Import Model.Reader Proofs.ReaderProofs.
+
+(* reading back the rendering of a module gives the module, ghost ids included, whenever the module has a text at all
+   (reader_wf: ghost ids in canonical numbering 1, 2, ...; min/max-elements <= MaxUint64; a submodule has no namespace) *)
+Theorem C04_reader_roundtrip : forall m, reader_wf m = true -> read_module (render_module m) = Some m.
+Proof. exact reader_roundtrip. Qed.
+
+(* the same with the ghost ids counted from any g: how read_schema / process_text number a whole set of texts *)
+Theorem C04_reader_roundtrip_from : forall m g g', reader_wf_from m g = Some g' ->
+  obind (read_module0 (render_module m)) (fun m0 => Some (number_module m0 g)) = Some (m, g').
+Proof. exact reader_roundtrip_from. Qed.
+
+(* per data definition: the statement reads back as the node (ghost ids erased: the text does not carry them) *)
+Theorem C04_reader_dnode_roundtrip : forall d, nums_ok d = true -> read_dnode (render_dnode d) = Some (erase d).
+Proof. exact read_dnode_render. Qed.
+
+(* the ghost ids the reader assigns are the canonical ones *)
+Theorem C04_reader_numbering : forall l g g',
+  check_nodes l g = Some g' -> number_nodes (map erase l) g = (l, g').
+Proof. exact number_nodes_check. Qed.
+
+(* non-vacuity: a module with nested groupings, uses, list, rpc, choice, augment, deviation, import, include satisfies
+   the hypothesis and round-trips; a text is read; a text with a statement outside the subset is rejected *)
+Example C04_reader_wf_example : reader_wf ex_module = true.
+Proof. exact ex_module_wf. Qed.
+Example C04_reader_text_example : exists m, read_text ex_text = Some m /\ m_name m = [109%N].
+Proof. eexists. split. - exact ex_text_read. - reflexivity. Qed.
